@@ -145,162 +145,120 @@ u16 count // c97a
 } // c102a
   // c102b
 ")).
-Eval vm_compute in ("<<<M387>>>" ++ check (runes_of_ascii "options {
-	StringPrefixLenType = u16;
-	ArrayPrefixLenType = u16;
-}
-
-packet SampleBinary {
-	uint16 MsgType `" ++ [28040; 24687; 31867; 22411]%N ++ runes_of_ascii "`,
-	u16 BodyLenght @lengthOf(Body) `" ++ [28040; 24687; 20307; 38271; 24230]%N ++ runes_of_ascii "`,
-	match MsgType as Body {
-		1 : Logon,
-		2 : Logout,
-		3 : Heartbeat,
-		4 : RiskControlRequest,
-		5 : RiskControlResponse,
-	},
-	@calculatedFrom(""CRC32"")
-	u32 Ckecksum `" ++ [26657; 39564; 21644]%N ++ runes_of_ascii "`,
-}
-
-packet Logon {
-	@leftPad('0')
-	char[10] UserName `" ++ [29992; 25143; 21517]%N ++ runes_of_ascii "`,
-	string Password `" ++ [23494; 30721]%N ++ runes_of_ascii "`,
-	uint64 ClientId `" ++ [23458; 25143; 31471]%N ++ runes_of_ascii "ID`,
-	u16 HeartbeatInterval `" ++ [24515; 36339; 38388; 38548]%N ++ runes_of_ascii "`,
-}
-
-packet Logout {
-	@rightPad('0')
-	char[10] UserName `" ++ [29992; 25143; 21517]%N ++ runes_of_ascii "`,
-	uint64 ClientId `" ++ [23458; 25143; 31471]%N ++ runes_of_ascii "ID`,
-}
-
-packet Heartbeat {
-}
-
-packet RiskControlRequest {
-	string UniqueOrderId `" ++ [21807; 19968; 35746; 21333; 21495]%N ++ runes_of_ascii "`,
-	char[16] ClOrdID `" ++ [23458; 25143; 35746; 21333; 21495]%N ++ runes_of_ascii "`,
-	char[3] MarketID `" ++ [24066; 22330]%N ++ runes_of_ascii "id`,
-	char[12] SecurityID `" ++ [35777; 21048; 20195; 30721]%N ++ runes_of_ascii "`,
-	char Side `" ++ [20080; 21334; 26041; 21521]%N ++ runes_of_ascii "`,
-	char OrderType `" ++ [35746; 21333; 31867; 22411]%N ++ runes_of_ascii "`,
-	u64 Price `" ++ [20215; 26684]%N ++ runes_of_ascii "`,
-	u32 Qty `" ++ [25968; 37327]%N ++ runes_of_ascii "`,
-	repeat string ExtraInfo `" ++ [38468; 21152; 20449; 24687]%N ++ runes_of_ascii "`,
-	repeat SubOrder {
-		char[16] ClOrdID `" ++ [23376; 35746; 21333; 21495]%N ++ runes_of_ascii "`,
-		u64 Price `" ++ [23376; 35746; 21333; 20215; 26684]%N ++ runes_of_ascii "`,
-		u32 Qty `" ++ [23376; 35746; 21333; 25968; 37327]%N ++ runes_of_ascii "`,
-	},
-}
-
-packet RiskControlResponse {
-	string UniqueOrderId `" ++ [21807; 19968; 35746; 21333; 21495]%N ++ runes_of_ascii "`,
-	i32 Status `" ++ [29366; 24577]%N ++ runes_of_ascii "`,
-	string Msg `" ++ [32467; 26524; 20449; 24687]%N ++ runes_of_ascii "`,
-	repeat Detail,
-}
-
-packet Detail {
-	string RuleName `" ++ [35268; 21017; 21517; 31216]%N ++ runes_of_ascii "`,
-	u16 Code `" ++ [21407; 22240; 20195; 30721]%N ++ runes_of_ascii "`,
-}")).
-Eval vm_compute in ("<<<M1529>>>" ++ check (runes_of_ascii "
-packet
-
-    leftPad { 	 //
-      i8 stringy
-
-@calculatedFrom(	""" ++ [128512]%N ++ runes_of_ascii """ ) 
-,
-
-int @calculatedFrom(
-	// c
-		// " ++ [128512]%N ++ runes_of_ascii " emoji
-
-  ""a	b"" ) `it's`
-	, @leftPad(
-
-)
-    @tag( 
-0123456789)  int32
-
-    u8x
-,
-    @lengthOf(
-    A
-    )float64
-u128  @calculatedFrom(
-	""a\\"" )
-,	//x
-
-}
-
-options
-{  //x
-
-  Pad=0 u =  ' '}  MetaData  a1{
-	char[]
-
-metadata	`// not a comment` 
-// @lengthOf(
-	,
+Eval vm_compute in ("<<<M231>>>" ++ check (runes_of_ascii "root packet
+    metadata {  @lengthOf(
+options1
+) int32 zchar @calculatedFrom(""// no comment"" ) `
+` , repeat calculatedFrom `it's`, //
+match
+    BodyLength as lengthOf
+{ 3 /// triple
+:	leftPad , }, repeat
+u128, char[ 10
+] chars  ,// @lengthOf(
+falsey
+@calculatedFrom( ""x y"") // c
+`{ , }` ,	@tag(42
+)	float64
+    i64_
+    // packet A { u8 x, }
+    , u8x@calculatedFrom(  ""{,}"" ) `two words`
+//	t
+// trailing space 
+, @lengthOf(T)
+char[	255]  pack `it's`
+,match MetaDataX
+as i64_{
+    //
+    """ ++ [28040; 24687]%N ++ runes_of_ascii """ // @lengthOf(
+:Header , 0
+    //
+    : x_y_z 3 : // `tick` ""quote"" 'q'
+int""abc""
+    // @lengthOf(
+    : u8x ,
+    } , } packet i64_
+{@rightPad ( ) /// triple
+pack {
+match MetaDataX
+    as trueish { 1 // @lengthOf(
+:
+    len
+00	: falsey // packet A { u8 x, }
+,"""" :
+x ,
+}, } , @tag(1) char[]int @lengthOf(	metadata
+) // packet A { u8 x, }
+, a1 @lengthOf( calculatedFrom ) ,
+    @tag( 7
+    )tag@lengthOf(u ) , BodyLength /// triple
+@calculatedFrom( ""it's""
+) `say ""hi""` ,string
+msg_type ,
     }
-    packet 
-Foo {
-
-@tag( 
-42
-    )
-
-    repeat BodyLength, int8
-metadata `{ , }` ,
-@leftPad 
-( // c
-  )  // " ++ [27880; 37322]%N ++ runes_of_ascii "
-  	@calculatedFrom( 	 //
-""`tick`"")
-@calculatedFrom( ""a	b""
-) u32 stringy
-
-,
-
-    @lengthOf(
-	roots
-	) zchar[0  ]  msg_type@lengthOf(
-
-i64_)
-    `tab	here`,i8
-    Header`{ , }` ,
-char[  7 ]	trueish @lengthOf(packetx )
-    , u64
-    charz`
-`
-	,
-zchar[ 
-    //	t
-// c
-65535 
-] repeatCount
-`it's`
-
-    , match// @lengthOf(
-
-calculatedFrom	as
-    calculatedFrom {
-
-""a	b"" :	roots
-	42 :  MetaDataX
-,
-
-}
-	,}
+    MetaData
+    Logon { BodyLength
+_x `it's` , int32 body ,
+    // trailing space 
+    } root	packet body{  }
 ")).
-Eval vm_compute in ("<<<M1834>>>" ++ check (runes_of_ascii "packet o {
+Eval vm_compute in ("<<<M1661>>>" ++ check (runes_of_ascii "options {
+    FixedStringPadFromLeft = true;
+    FixedStringPadChar = '0';
+}
+
+packet Leg {
+    InPrice0 {
+        repeat string clOrdID,
+        int16 msgKind,
+        zchar[5] Px,
+    },
+    i16 f1,
+    repeat f64 Side2,
+    string Acct,
+}
+
+packet Cancel {
+    zchar[4] clOrdID,
+    string seqNo,
+    Leg,
+    @leftPad('0')
+    char[11] OrderId,
+}
+
+packet Quote {
+    repeat char[4] sym,
+    f64 OrderId,
+    repeat Leg,
+    repeat i64 f1,
+    int16 Note,
+    zchar[3] count,
+}
+
+root packet Ack {
+    @leftPad(' ')
+    char[10] sym,
+    InPx60 {
+        Cancel,
+        repeat char[1] f1,
+        string Tail,
+        repeat InNote55 {
+            int8 count,
+            f64 f1,
+            repeat Cancel,
+        },
+        char[] tag7,
+        repeat string msgKind,
+    },
+    u8 lastPx,
+    match lastPx as Body {
+        152 : Quote,
+        173 : Cancel,
+        4 : Leg,
+    },
+    u16 Ref @calculatedFrom(""CRC32""),
+}")).
+Eval vm_compute in ("<<<M1878>>>" ++ check (runes_of_ascii "packet o {
     repeat pack stringy `two words`,
     char[1] leftPad,
 }
@@ -326,11 +284,11 @@ packet options1 {
     },
     char[] T @calculatedFrom(""packet""),
     repeat asx msg_type `crlf
-    line`,
+        line`,
     @calculatedFrom(""\" ++ [233]%N ++ runes_of_ascii """)
     @tag(7)
     int64 o `line1
-    line2`,
+        line2`,
 }// " ++ [128512]%N ++ runes_of_ascii " emoji
 
 root packet crc {
@@ -341,27 +299,32 @@ root packet crc {
 
 MetaData a1 {
     falsey _x `
-    `,
+        `,
     char[] body `" ++ [28040; 24687; 31867; 22411]%N ++ runes_of_ascii "`,
     zchar[42] trueish `
-    `,
+        `,
     float trueish,
     metadata o `{ , }`,
 }")).
-Eval vm_compute in ("<<<M1344>>>" ++ check (runes_of_ascii "options {
+Eval vm_compute in ("<<<M1614>>>" ++ check (runes_of_ascii "options {
     StringPrefixLenType = u16;
     ArrayPrefixLenType = u32;
     FixedStringPadFromLeft = true;
     FixedStringPadChar = '0';
 }
+
 packet Cancel {
 }
+
 packet Party {
 }
+
 packet Logon {
 }
+
 packet Ack {
 }
+
 packet Logout {
     repeat InSym87 {
         InClordid94 {
@@ -378,9 +341,11 @@ packet Logout {
         Cancel,
     },
 }
+
 root packet Order {
     repeat string tag7,
-    @leftPad(' ') char[3] Px,
+    @leftPad(' ')
+    char[3] Px,
     u8 Qty,
     match Qty as Body {
         [28, 62] : Logon,
@@ -388,422 +353,436 @@ root packet Order {
         88 : Party,
         184 : Cancel,
     },
-    u16 Note @calculatedFrom(""CRC32""),
-}
-")).
-Eval vm_compute in ("<<<M1889>>>" ++ check (runes_of_ascii "
-
-  //x
-		root 
-    // " ++ [128512]%N ++ runes_of_ascii " emoji
-
-	packet  
-      // `tick` ""quote"" 'q'
-	/// triple
-    float
-{ options1 A
-, @tag(
-
-42
-    )
-u8x
-{ tag //x
-
-	@calculatedFrom(
-""\" ++ [233]%N ++ runes_of_ascii """)// packet A { u8 x, }
-  `tab	here` 
+    u16 Note @calculatedFrom(""CR\
+    C32""),
+}")).
+Eval vm_compute in ("<<<M201>>>" ++ check (runes_of_ascii "packet charz
+{ //	t
+repeat i64_ ,trueish {
+repeat _x
+    ,	repeatCount, repeat u16
+matchKey `
+`
 ,
-} ,
-int16 asx
+// " ++ [128512]%N ++ runes_of_ascii " emoji
+// a // b
+matchKey @calculatedFrom( ""a\""b"" )
+`it's` ,}	,
+@tag(
+007 )@calculatedFrom(
+    ""a\\"")	@tag(
+    3 // @lengthOf(
+)f32 f32a @lengthOf(asx ) `crlf
+line` // packet A { u8 x, }
+, repeat i8 string_
+,
+    @lengthOf(
+    // @lengthOf(
+    Logon  ) @lengthOf( x_y_z )
+    @lengthOf(
+zchar
+    ) repeat char[ 65535	] Foo`" ++ [233]%N ++ runes_of_ascii "`,
+@calculatedFrom(//
+""abc""
+) trueish @lengthOf( A )
+// " ++ [27880; 37322]%N ++ runes_of_ascii "
+// a // b
+,char[ 0 ] float , Packet
+    @calculatedFrom( ""a	b""
+), } MetaData
+    Pad { char[ 00 ] leftPad , u8 rootA `
+`,
+//
+// " ++ [128512]%N ++ runes_of_ascii " emoji
+int32
+    a1	`say ""hi""`
+    ,
+Z9_ float , //x
+i32 Pad ,
+}")).
+Eval vm_compute in ("<<<M23>>>" ++ check (runes_of_ascii "MetaData lengthOf
+{ }
+MetaData falsey { // " ++ [27880; 37322]%N ++ runes_of_ascii "
+falsey i64_
+`
+`	, zchar[ 255	] u `two words` ,	BodyLength int , matchKey	i8i8 `crlf
+line` ,uint8x	asx ,
+char[]options1 ,	}packet
+    asx  {	@lengthOf( o
+)@calculatedFrom(//
+""\n"" ) char[] lengthOf  `two words`// c
+,
+    BodyLength `" ++ [233]%N ++ runes_of_ascii "` ,repeat u8x len // " ++ [27880; 37322]%N ++ runes_of_ascii "
+`doc`
+, int
+@calculatedFrom(
+""a\\""
+    ) `line1
+line2`,@lengthOf( MetaDataX
+)
+Packet packetx
+    // `tick` ""quote"" 'q'
+    , a1 {
+    match Logon	as
+// " ++ [128512]%N ++ runes_of_ascii " emoji
+/// triple
+len {	4294967296
+:matchKey , [
+1  , 10 , 10 ,
+""{,}"" , """ ++ [233]%N ++ runes_of_ascii "t" ++ [233]%N ++ runes_of_ascii """ , 0123456789]: leftPad ,  3
+    :msg_type ,
+//	t
+//x
+1 : As
+,} ,
+    chars , }
+    ,}
+")).
+Eval vm_compute in ("<<<M1357>>>" ++ check (runes_of_ascii "  options 
+{
+StringPrefixLenType
+= 
+u8
+;
+ArrayPrefixLenType=  u8 ;
+
+FixedStringPadFromLeft
+    =
+false 
+;
+	FixedStringPadChar
+=' '
+
+;
+    } packet Ack	{ 
+char[]
+	tag7,	}
+	packet
+    Reject 
+{InSym61
+    {
+
+repeat
+
+Ack
+, zchar[4
+]
+	f1
+, 
+}
+,}	packet
+Logout{
+char[
+
+4
+
+    ] clOrdID , 
+}
+	root
+packet Cancel  {@leftPad
+    ( 
+' ')
+
+char[
+
+    10
+
+]	price
+,u8
+	x
+, u32 venue 
+@lengthOf(
+Body	) ,	match
+
+    x  as Body  {
+[ 
+92 ,  175 ]
+    : Logout ,  26
+:
+Reject
+
+    , 144 
+:
+	Ack	, }
+    ,u16  count	@calculatedFrom(
+    ""CRC32""	)
+
+    , }
+")).
+Eval vm_compute in ("<<<M1520>>>" ++ check (runes_of_ascii "packet Logon {
+    repeatCount {
+        BodyLength `crlf
+                line`,
+    },
+    zchar a1 `u8 x,`,
+    match Foo as Foo {
+        ""\n"" : i8i8,
+        [
+            ""abc"",
+            ""CRC32""
+        ] : crc,
+        [
+            3, 42, 1, 255, ""x y"",
+            ""`tick`"", ""a\""b"", ""CRC32""
+        ] : repeatCount,
+        [
+            1, 007, 007, 7, 255,
+            ""\n"", ""// no comment""
+        ] : uint8x,
+        00 : f32a,
+    },
+    // a // b
+    uint16 Pad @lengthOf(uint8x) `doc`,
+}")).
+Eval vm_compute in ("<<<M1789>>>" ++ check (runes_of_ascii "options
+{	LittleEndian 
+=	true
+
+; StringPrefixLenType =
+
+    u64;
+ArrayPrefixLenType = u16  ;
+	FixedStringPadFromLeft
+	=	false ;	FixedStringPadChar = 
+' ' ;	} packet
+
+Logon
+    {  zchar[ 5
+]Side2
+	,
+	}  root packet 
+Logout{ 
+repeat i64
+	Tail
+	, Logon
+    ,  repeat
+
+    i16
+    OrderId,
+	char[]
+venue ,
+uint64 
+x
+
+,
+repeat i16  count
+    ,
+	u8
+    Flags  ,
+	match
+Flags as Body	{25 : Logon ,
+    }	,
+
+    u16
+
+Qty@calculatedFrom(
+""CRC32"" 
+)	,  }")).
+Eval vm_compute in ("<<<M1784>>>" ++ check (runes_of_ascii "// top
+options {
+    // c1a
+    // c1b
+    LittleEndian = false;// c5a
+    // c5b
+    StringPrefixLenType = u16;
+}// c10
+
+packet Heartbeat {
+    @rightPad('0')
+    char[7] seqNo,// c22a
+    // c22b
+    uint64 Tail,// c25a
+    // c25b
+    i16 Flags,// c28a
+    // c28b
+    u16 msgKind,
+}// c32a
+
+// c32b
+root packet Reject {
+    zchar[3] tag7,// c41
+    repeat Heartbeat,
+    repeat string clOrdID,
+}")).
+Eval vm_compute in ("<<<M1265>>>" ++ check (runes_of_ascii "// top
+packet // c0
+B // c1
+{ // c2
+u8 // c3
+a , // c5a
+  // c5b
+} // c6
+root // c7
+packet P // c9a
+  // c9b
+{ // c10a
+  // c10b
+u8 // c11
+K , // c13a
+  // c13b
+match K // c15a
+  // c15b
+as // c16a
+  // c16b
+Body { // c18
+1 :
+    // c20
+B , }
+    // c23
+, // c24a
+  // c24b
+u16 // c25a
+  // c25b
+L // c26
+@lengthOf( Body
+    // c28
+)
+    // c29
+,
+    // c30
+} ")).
+Eval vm_compute in ("<<<M1458>>>" ++ check (runes_of_ascii "
+packet Logon{
+o Header,
+
+    Header
+,
+
+    @lengthOf(u	)
+char[
+255 ] tag `tab	here`
+	,	char[]
+falsey
+
+,
+    @lengthOf( zchar	)
+@rightPad
+(  )
+    float
+	roots 	 // @lengthOf(
+,@calculatedFrom(
+""// no comment""
+    )
+i64 u8x
+,
+
+} 
+options {
+
+metadata
+
+    =
+
+    '0'
+
+;_x=
+
+4294967296  ;Packet
+	=  '0'	;
+	}")).
+Eval vm_compute in ("<<<M262>>>" ++ check (runes_of_ascii "  packet  Logon
+    { o Header ,	Header
 , @lengthOf(
-o)
-@rightPad  ( )
+u )	char[ 255 ] tag `tab	here`, char[]falsey ,
+    @lengthOf(	zchar )
+    @rightPad (
+) float roots// @lengthOf(
+,
+@calculatedFrom(	""// no comment"") i64
+u8x,
+} options { metadata = '0' ;_x = 4294967296 ; Packet
+    =
+    '0'
+;
+    }
+
+")).
+Eval vm_compute in ("<<<M1884>>>" ++ check (runes_of_ascii "packet i8i8
+{
 
     repeat
-int 
 
-/// triple
-	/// triple
-	Logon , 
-@calculatedFrom( ""// no comment"")	@leftPad( '\x00'
+char[
+00]	Pad  `a\`,
+    @leftPad 
+( 
+'\x00'	)
 
-    )
-@rightPad( '0' ) zchar[  65535 	 //x
-]
-	o `
-` , repeat
-As
+    string a1@lengthOf(tag
+	)
+    ``	,float64
+u128
 
-{  //x
-  repeat uint16
+    @calculatedFrom( 
+""1"") ,
+@lengthOf( x) 
+u128
 
-    o ,	repeat  char[	// trailing space 
+@lengthOf(
+    tag
 
-	1  ]
-
-o ,u128
-
-    metadata ,
-	repeat
-
-    char[
-    7 ]
-    Header
-	,
-    }
-,
-
-@tag(	0123456789  )	a1
-
-    tag,
-
-    float32 
-asx
-	,repeat // packet A { u8 x, }
-
-len ``,	}
-
-")).
-Eval vm_compute in ("<<<M1118>>>" ++ check (runes_of_ascii "MetaData Packet
-    // c1
-{ // c2
-} packet // c4a
-  // c4b
-charz // c5a
-  // c5b
-{ // c6a
-  // c6b
-Foo // c7
-asx `it's` ,
-    // c10
-@lengthOf( // c11
-T )
-    // c13
-@calculatedFrom(
-    // c14
-"""" // c15
 )
-    // c16
-@calculatedFrom(
-    // c17
-""x y"" // c18
-) // c19a
-  // c19b
-zchar[ 007 // c21
-] repeatCount @lengthOf(
-    // c24
-int // c25
-)
-    // c26
-`a\`
-    // c27
-, // c28a
-  // c28b
-i8
-    // c29
-string_ // c30a
-  // c30b
-, // c31
-repeat // c32
-options1 // c33
-Pad
-    // c34
-, } // c36a
-  // c36b
-root packet
-    // c38
-Packet { int8 // c41
-float `doc` // c43
-, // c44
-}
-    // c45
-")).
-Eval vm_compute in ("<<<M1528>>>" ++ check (runes_of_ascii "packet u128 {
-    // trailing space 
-    string Header `say ""hi""`,
-    repeat crc f32a,
-    char[10] _x,
-    @calculatedFrom(""x y"")
-    repeat charz {
-        Logon @lengthOf(T) `crlf
-        line`,
-        repeat char[0123456789] Z9_ `crlf
-        line`,
-    },
-    match Packet as float {
-        1 : lengthOf,
-    },
-    MetaDataX,
-    match x as u8x {
-        10 : crc,
-    },
-}
 
-root packet Header {
-    @calculatedFrom(""{,}"")
-    a1 {
-        char[007] pack,
-        stringy zchar,
-        repeat char[] o `it's`,
-    },
+`" ++ [28040; 24687; 31867; 22411]%N ++ runes_of_ascii "`	,
+    int64
+u ,A//x
+  T`say ""hi""` , 
 }")).
-Eval vm_compute in ("<<<M1416>>>" ++ check (runes_of_ascii "packet rootA
-{ 
-@tag(
-0123456789
-    ) options1
-{
-int32
-
-uint8x`u8 x,`
-,  u8x
+Eval vm_compute in ("<<<M124>>>" ++ check (runes_of_ascii "MetaData Z9_
+{zchar[4294967296 ]
+    leftPad `u8 x,`,
+}
+MetaData body { trueish
+    len `// not a comment` , }root
+packet // @lengthOf(
+u8x{ char[ 10 ] x
+    @calculatedFrom(
+// a // b
+// packet A { u8 x, }
+""\" ++ [233]%N ++ runes_of_ascii """ ) , }
+")).
+Eval vm_compute in ("<<<M1536>>>" ++ check (runes_of_ascii "
+MetaData x_y_z 
     //x
-	  // packet A { u8 x, }
-	{
-match
 
-    Header  as
-metadata { [
-	10
-    ]	:
-    pack	} ,
-}, f64	// `tick` ""quote"" 'q'
-
-	chars
-	, }
-, 
-@lengthOf(body)	u64
-	// @lengthOf(
-      //
-Z9_ ,
-	}
-
-    MetaData  repeatCount
-
-    {
+//x
+  {	int32
+o  ,
 zchar[
-	10
-]string_
-
-    ,  f64
-	A,
-	u32
-	BodyLength
-
-    ,zchar[
-
-00
-
-]
-    uint8x,  trueish leftPad	,char[65535
-]	rootA
-
-    , 
-} 
-    //	t
- 
-")).
-Eval vm_compute in ("<<<M1480>>>" ++ check (runes_of_ascii "root packet Logon {
-    @calculatedFrom("""")
-    @lengthOf(int)
-    @tag(3)
-    match _x as i64_ {
-        10 : asx,
-        // `tick` ""quote"" 'q'
-        /// triple
-        """ ++ [128512]%N ++ runes_of_ascii """ : crc,
-        [0, 007] : float,
-        // trailing space 
-    },
-    repeat uint16 leftPad,
-}
-
-// " ++ [27880; 37322]%N ++ runes_of_ascii "
-packet charz {
-}
-
-MetaData int {
-    zchar[4294967296] matchKey,
-    asx rootA `doc`,
-    Foo string_ `// not a comment`,
-    char[] u8x,
-    roots float,
-}")).
-Eval vm_compute in ("<<<M1328>>>" ++ check (runes_of_ascii "
-options
-    {LittleEndian 
-=
-	true
-
-    ;
-    StringPrefixLenType
-
-    =
-
-u16
-    ;FixedStringPadChar
-    =
-    ' '; }packet
-Logon
-
-{
-@leftPad
-    (  '0'
-
-)  char[ 10  ] tag7
-, }root
-
-    packet
-
-    Ack
-{
-    int32 Px 
-,
-uint16
-
-    count
-	,
-	string
-    Qty ,string OrderId , 
-string
-
-    Flags	,  u8 x
-
-,  match x 
-as  Body
-
-{[ 58
-    ,
-169] 
-: Logon
+65535 
+]	Packet
 
 ,
-}	,
+i64_ o  ,i64
 
+o 
+`
+`
+,
+
+    }options {x= 
+//x
+/// triple
+	  u8  ; 
+    // " ++ [27880; 37322]%N ++ runes_of_ascii "
+// a // b
+	} 	 // trailing space ")).
+Eval vm_compute in ("<<<M1582>>>" ++ check (runes_of_ascii "root packet lengthOf	{ @leftPad
+
+( ' ' 	 // c
+  ) 
+repeat
+	char	MetaDataX ,
+	}MetaData
+    Pad  { msg_type
+
+rootA 	 // trailing space 
+
+  `// not a comment`
+,
     }
 ")).
-Eval vm_compute in ("<<<M236>>>" ++ check (runes_of_ascii "packet metadata{ //	t
-float64	body
-    @lengthOf( calculatedFrom ) , // a // b
-@tag(42
-    ) rootA ,
-    x_y_z u8x`// not a comment`
-    ,  @lengthOf(Pad)  match // " ++ [27880; 37322]%N ++ runes_of_ascii "
-packetx  as leftPad
-    {
-    //
-    65535 : tag ,
-""" ++ [128512]%N ++ runes_of_ascii """ :_x} , x_y_z  metadata , @tag(7 )int64 zchar @lengthOf(
-repeatCount ) `" ++ [233]%N ++ runes_of_ascii "`,@tag( 0123456789 ) repeat float chars ,	f32  MetaDataX
-,}")).
-Eval vm_compute in ("<<<M1489>>>" ++ check (runes_of_ascii "// top
-root packet _x {
-    match Foo as Z9_ {
-        // c8
-        ""a	b"" : Pad,
-    },// c14
-    repeat x `line1
-    line2`,// c18
-    @rightPad(' ')
-    @calculatedFrom(""a\\"")
-    // c25a
-    // c25b
-    metadata MetaDataX,
-    @tag(0)
-    // c31
-    Logon int ``,
-}// c36
-
-options {
-    // c38
-    T = '\x00'
-}// c42a")).
-Eval vm_compute in ("<<<M1734>>>" ++ check (runes_of_ascii "packet	MDSnapshotZZ	{u8
-
-a  ,
-}
-packet
-    OrderACK
-
-    {u16 b
-    , } 
-packet
-
-    HTTPServerInfo
-	{	string 
-s	, 
-}root packet
-    FIXMsg
-    { u8 
-KType	,	MDSnapshotZZ
-, 
-repeat	OrderACK  ,match KType as Body
-{	1
-    :
-
-    HTTPServerInfo
-    ,
-2
-    :
-
-    OrderACK  , } ,}
-")).
-Eval vm_compute in ("<<<M80>>>" ++ check (runes_of_ascii "packet
-    len { // trailing space 
-repeat zchar f32a `// not a comment` , @tag( 255 )repeat  Pad { x T
-, } , @calculatedFrom(
-""{,}"") repeat
-    // a // b
-    leftPad { u64 u8x `tab	here` ,o Packet
-    ,char[] chars , } , @tag( 3 )float64
-    i8i8 , }
-")).
-Eval vm_compute in ("<<<M203>>>" ++ check (runes_of_ascii "root packet Pad {match //	t
-falsey as
-    A{
-255:// `tick` ""quote"" 'q'
-T, } , int64
-Header	`tab	here`
-, repeat i64_ `line1
-line2`, @tag( 7 )
-    float32	zchar
-    @calculatedFrom( ""\" ++ [233]%N ++ runes_of_ascii """
-    )
-//
-// @lengthOf(
-,u64 Header ,
-    }
-")).
-Eval vm_compute in ("<<<M92>>>" ++ check (runes_of_ascii "packet lengthOf { } root packet leftPad {  zchar[00// a // b
-]
-    Foo `` // c
-, @calculatedFrom( ""1"" )
-@leftPad (
-    ' '
-// trailing space 
-// " ++ [27880; 37322]%N ++ runes_of_ascii "
-)  @leftPad
-( ' ')
-repeat u8
-options1 , }")).
-Eval vm_compute in ("<<<M1668>>>" ++ check (runes_of_ascii "
-packet
-
-msg_type {zchar[65535
-	/// triple
-]stringy 	 // `tick` ""quote"" 'q'
-@calculatedFrom(""" ++ [233]%N ++ runes_of_ascii "t" ++ [233]%N ++ runes_of_ascii """	) 
-, @tag(
-
-0
-	) 
-repeat 
-i64_
-, } 
-    // packet A { u8 x, }
- 
-")).
-Eval vm_compute in ("<<<M396>>>" ++ check (runes_of_ascii "packet uint8x uint8x
+Eval vm_compute in ("<<<M392>>>" ++ check (runes_of_ascii "packet packet uint8x
 { match pack
     as msg_type	{
     0123456789 :	float
@@ -814,282 +793,295 @@ a1
     { } options {packetx
     = '\x00'	; u128= ""a	b""  ; }
 ")).
-Eval vm_compute in ("<<<M513>>>" ++ check (runes_of_ascii "packet uint8x
+Eval vm_compute in ("<<<M466>>>" ++ check (runes_of_ascii "packet uint8x
 { match pack
     as msg_type	{
     0123456789 :	float
 }
 ,
 } packet //	t
-a1
-    { } options {packetx
-    = '\x00'	; float32= ""a	b""  ; }
-")).
-Eval vm_compute in ("<<<M548>>>" ++ check (runes_of_ascii "packet uint8x
-{ match pack
-    as msg_type	{
-    0123456789 :	float
-}
-,
-} packet //	t
-a1
-    { } options {packetx
-    ''= '\x00'	; u128= ""a	b""  ; }
-")).
-Eval vm_compute in ("<<<M447>>>" ++ check (runes_of_ascii "packet uint8x
-{ match pack
-    as msg_type	{
-    0123456789 :	float
-,
-}
-} packet //	t
-a1
+a1 a1
     { } options {packetx
     = '\x00'	; u128= ""a	b""  ; }
 ")).
-Eval vm_compute in ("<<<M483>>>" ++ check (runes_of_ascii "packet uint8x
-{ match pack
-    as msg_type	{
-    0123456789 :	float
-}
-,
-} packet //	t
-a1
-    { } '\x00' {packetx
-    = '\x00'	; u128= ""a	b""  ; }
-")).
-Eval vm_compute in ("<<<M533>>>" ++ check (runes_of_ascii "packet uint8x
-{ match pack
-    as msg_type	{
-    0123456789 :	float
-}
-,
-} packet //	t
-a1
-    { } options {packetx
-    = '\x00'	; u128= ""a	b""  ;")).
-Eval vm_compute in ("<<<M664>>>" ++ check (runes_of_ascii "// @lengthOf(
-packet i8i8 { u128 o , }
-options { MetaDataX = true;
-    BodyLength =""packet"" packet= 007
-crc //x
-= ""abc"" ;
-    msg_type =
-i16 }")).
-Eval vm_compute in ("<<<M689>>>" ++ check (runes_of_ascii "// @lengthOf(
-packet i8i8 { u128 o , }
-options { MetaDataX  true;
-    BodyLength =""packet"" x_y_z= 007
-crc //x
-= ""abc"" ;
-    msg_type =
-i16 }")).
-Eval vm_compute in ("<<<M329>>>" ++ check (runes_of_ascii "  packet calculatedFrom
-{ uint8x {body `line1
-line2`
-, string crc
-@lengthOf(uint8x// " ++ [128512]%N ++ runes_of_ascii " emoji
-) , char[]As@lengthOf(	Pad )
-    , } , }
-")).
-Eval vm_compute in ("<<<M1588>>>" ++ check (runes_of_ascii "packet A {
+Eval vm_compute in ("<<<M1390>>>" ++ check (runes_of_ascii "packet A {
     match k as n {
         [
-            1, 007, 5, 7, ""bb"",
-            ""d"", ""f""
+            1, 22, 007, 4, 5,
+            66, 7, 8, 9, 10,
+            11
         ] : B,
         2 : C,
     },
 }")).
-Eval vm_compute in ("<<<M173>>>" ++ check (runes_of_ascii "
-options
-    { zchar
-    = 10 ; matchKey = char[ /// triple
+Eval vm_compute in ("<<<M462>>>" ++ check (runes_of_ascii "packet uint8x
+{ match pack
+    as msg_type	{
+    0123456789 :	float
+}
+,
+} a1 //	t
+packet
+    { } options {packetx
+    = '\x00'	; u128= ""a	b""  ; }
+")).
+Eval vm_compute in ("<<<M505>>>" ++ check (runes_of_ascii "packet uint8x
+{ match pack
+    as msg_type	{
+    0123456789 :	float
+}
+,
+} packet //	t
+a1
+    { } options {packetx
+    = '\x00'	 u128= ""a	b""  ; }
+")).
+Eval vm_compute in ("<<<M1653>>>" ++ check (runes_of_ascii "packet A {
+    match k as n {
+        [
+            22, 4, 66, 8, 10,
+            ""a"", ""c c"", ""e"", ""g"", ""i""
+        ] : B,
+        2 : C,
+    },
+}")).
+Eval vm_compute in ("<<<M1938>>>" ++ check (runes_of_ascii "packet A
+
+    {
+
+u8 a
+,	}
+	packet
+B  {
+
+u16	b
+
+,	}root packet
+
+    P
+{
+u8
+    K, match  K as 
+M
+
+    {
 1
-    ]
-u	= ""a\""b"" ;
-    x_y_z =
-    42 ; } MetaData Logon{ }")).
-Eval vm_compute in ("<<<M1158>>>" ++ check (runes_of_ascii "MetaData leftPad { chars MetaDataX , } packet
-// c
-repeatCount { char[ 255 ] uint8x `" ++ [233]%N ++ runes_of_ascii "` , } MetaData pack { As Foo , }")).
-Eval vm_compute in ("<<<M102>>>" ++ check (runes_of_ascii "packet
-    // " ++ [128512]%N ++ runes_of_ascii " emoji
-    body {match Logon  as _x
-    {
-4294967296
-// a // b
-//x
-:
-_x , """ ++ [28040; 24687]%N ++ runes_of_ascii """
-    : u128
-    ,} , }
-")).
-Eval vm_compute in ("<<<M1244>>>" ++ check (runes_of_ascii "// top
-root // c0
-packet // c1
-P { // c3
-repeat // c4
-char cs
-    // c6
-, u8 x // c9a
-  // c9b
+    :A
+,
+1:
+
+    B 
 , }
-    // c11
-")).
-Eval vm_compute in ("<<<M1285>>>" ++ check (runes_of_ascii "// top
-root
-    // c0
-packet // c1a
-  // c1b
-P
-    // c2
-{ // c3
-string s // c5a
-  // c5b
+
+, }")).
+Eval vm_compute in ("<<<M1805>>>" ++ check (runes_of_ascii "MetaData	leftPad { 
+// c
+chars
+    MetaDataX ,}
+
+    packet
+
+repeatCount{ char[ 255] 
+uint8x
+	`" ++ [233]%N ++ runes_of_ascii "`
+    ,}	MetaData
+
+    pack{ As Foo,
+}")).
+Eval vm_compute in ("<<<M1448>>>" ++ check (runes_of_ascii "
+
+  packet	B 
+{
+	u8
+a,	}	root
+packet
+    P{
+u8
+K
+	,
+match
+
+    K
+
+    as
+Body
+	{1
+:  B
 ,
-    // c6
+},u16
+    L
+
+@lengthOf(  Body
+
+) ,
 } ")).
-Eval vm_compute in ("<<<M1911>>>" ++ check (runes_of_ascii "packet
-	A {
-    match k	as
-n
+Eval vm_compute in ("<<<M1641>>>" ++ check (runes_of_ascii "options {
+}
 
-    {
-[	""a""
-,
-    22 , ""c c""  ,
-	4
-]
+MetaData u8x {
+    uint8x body `crlf
+    line`,
+    calculatedFrom body,
+}
 
-:
+options {
+}
 
-    B
-2:C }
-,
-    }
-
+root packet options1 {
+}")).
+Eval vm_compute in ("<<<M1141>>>" ++ check (runes_of_ascii "// c
+MetaData leftPad { chars MetaDataX , } packet repeatCount { char[ 255 ] uint8x `" ++ [233]%N ++ runes_of_ascii "` , } MetaData pack { As Foo , }")).
+Eval vm_compute in ("<<<M1174>>>" ++ check (runes_of_ascii "MetaData leftPad { chars MetaDataX , } packet repeatCount { char[ 255 ] uint8x `" ++ [233]%N ++ runes_of_ascii "` ,
+// c
+} MetaData pack { As Foo , }")).
+Eval vm_compute in ("<<<M300>>>" ++ check (runes_of_ascii "packet
+Logon  { repeat u {zchar { zchar[ 007
+] a1
+`` ,  x_y_z@calculatedFrom(
+//
+// " ++ [128512]%N ++ runes_of_ascii " emoji
+""{,}""
+    ), }, } ,}
 ")).
-Eval vm_compute in ("<<<M1385>>>" ++ check (runes_of_ascii "packet A {
+Eval vm_compute in ("<<<M901>>>" ++ check (runes_of_ascii "packet A {
+  match k as n {
+    [""a"", ""bb"", 007, ""d"", ""e"", 66, ""g"", ""h"", 9, ""j"", ""k""] : B,
+    2 : C
+  },
+}")).
+Eval vm_compute in ("<<<M1813>>>" ++ check (runes_of_ascii "packet A {
     u32 crc @calculatedFrom(""x\
-    y""),
+        y""),
     @calculatedFrom(""x\
-    y"")
+        y"")
     u8 y,
 }")).
-Eval vm_compute in ("<<<M560>>>" ++ check (runes_of_ascii "
+Eval vm_compute in ("<<<M583>>>" ++ check (runes_of_ascii "
 packet
-    false {match u128 as lengthOf
+    asx {match u128 as lengthOf lengthOf
 {
 //	t
 // `tick` ""quote"" 'q'
 255 : x ,
     } ,	}")).
-Eval vm_compute in ("<<<M1934>>>" ++ check (runes_of_ascii "
+Eval vm_compute in ("<<<M624>>>" ++ check (runes_of_ascii "
 packet
-	calculatedFrom{
-
-repeat	// packet A { u8 x, }
-	  string
-
-Foo  `{ , }`
-    , 
-}
-
-")).
-Eval vm_compute in ("<<<M879>>>" ++ check (runes_of_ascii "packet A {
-  match k as n {
-    [1, 22, 007, 4, 5, 66, 7, 8, 9, 10] : B
-    2 : C
-  },
-}")).
-Eval vm_compute in ("<<<M1445>>>" ++ check (runes_of_ascii "packet A {
-    match k as n {
-        [1, 22, 007, 4, 5] : B,
-        2 : C,
-    },
-}")).
-Eval vm_compute in ("<<<M833>>>" ++ check (runes_of_ascii "packet A {
-  match k as n {
-    [""a"", 22, ""c c"", 4, ""e"", 66] : B
-    2 : C
-  },
-}")).
-Eval vm_compute in ("<<<M802>>>" ++ check (runes_of_ascii "packet A {
-  match k as n {
-    [""a"", ""bb"", ""c c"", ""d""] : B,
-    2 : C
-  },
-}")).
-Eval vm_compute in ("<<<M459>>>" ++ check (runes_of_ascii "packet uint8x
-{ match pack
-    as msg_type	{
-    0123456789 :	float
-}
-,")).
-Eval vm_compute in ("<<<M800>>>" ++ check (runes_of_ascii "packet A {
-  match k as n {
-    [1, 22, 007, 4] : B,
-    2 : C
-  },
-}")).
-Eval vm_compute in ("<<<M780>>>" ++ check (runes_of_ascii "packet A {
-  match k as n {
-    [""a"", ""bb""] : B,
-    2 : C
-  },
-}")).
-Eval vm_compute in ("<<<M825>>>" ++ check (runes_of_ascii "packet A { Inner { match k as n { [1,22,007,4,5] : B, }, }, }")).
-Eval vm_compute in ("<<<M930>>>" ++ check (runes_of_ascii "packet A {
-    B b `
-`,
-    B `
-`,
-    repeat B bs `
-`,
-}")).
-Eval vm_compute in ("<<<M1200>>>" ++ check (runes_of_ascii "packet
-// c
-body { i32 f32a `{ , }` , } options { }")).
-Eval vm_compute in ("<<<M251>>>" ++ check (runes_of_ascii "
-root packet
-chars
+    asx {match u128 as lengthOf
 {
-    i16 leftPad
-    , }
+//	t
+// `tick` ""quote"" 'q'
+255 : x ,
+    } ,	repeat")).
+Eval vm_compute in ("<<<M588>>>" ++ check (runes_of_ascii "
+packet
+    asx {match u128 as lengthOf
+{ {
+//	t
+// `tick` ""quote"" 'q'
+255 : x ,
+    } ,	}")).
+Eval vm_compute in ("<<<M574>>>" ++ check (runes_of_ascii "
+packet
+    asx {match as u128 lengthOf
+{
+//	t
+// `tick` ""quote"" 'q'
+255 : x ,
+    } ,	}")).
+Eval vm_compute in ("<<<M577>>>" ++ check (runes_of_ascii "
+packet
+    asx {match u128  lengthOf
+{
+//	t
+// `tick` ""quote"" 'q'
+255 : x ,
+    } ,	}")).
+Eval vm_compute in ("<<<M567>>>" ++ check (runes_of_ascii "
+packet
+    asx { u128 as lengthOf
+{
+//	t
+// `tick` ""quote"" 'q'
+255 : x ,
+    } ,	}")).
+Eval vm_compute in ("<<<M853>>>" ++ check (runes_of_ascii "packet A {
+  match k as n {
+    [1, 22, 007, 4, 5, 66, 7, 8] : B
+    2 : C
+  },
+}")).
+Eval vm_compute in ("<<<M1912>>>" ++ check (runes_of_ascii "options 	 // @lengthOf(
+
+{	a1	=  65535
+
+    // `tick` ""quote"" 'q'
+	// c
+	}
 ")).
-Eval vm_compute in ("<<<M951>>>" ++ check (runes_of_ascii "MetaData M {
-    u8 x `x
-`,
-    T t `x
-`,
+Eval vm_compute in ("<<<M822>>>" ++ check (runes_of_ascii "packet A {
+  match k as n {
+    [1, 22, ""c c"", 4, 5] : B
+    2 : C
+  },
 }")).
-Eval vm_compute in ("<<<M971>>>" ++ check (runes_of_ascii "options {
-    a = ""\
-"";
-    b = ""\
-""
+Eval vm_compute in ("<<<M798>>>" ++ check (runes_of_ascii "packet A {
+  match k as n {
+    [""a"", ""bb"", 007] : B
+    2 : C
+  },
 }")).
-Eval vm_compute in ("<<<M105>>>" ++ check (runes_of_ascii "// " ++ [128512]%N ++ runes_of_ascii " emoji
-MetaData crc
-    {  }")).
-Eval vm_compute in ("<<<M1008>>>" ++ check (runes_of_ascii "packet A {
- u8 x `d" ++ [8202]%N ++ runes_of_ascii "`, // c" ++ [8202]%N ++ runes_of_ascii "
+Eval vm_compute in ("<<<M1831>>>" ++ check (runes_of_ascii "root packet P {
+    u8 s_u8,
+    repeat u8 r_u8,
+    u16 b_len,
 }")).
-Eval vm_compute in ("<<<M655>>>" ++ check (runes_of_ascii "// @lengthOf(
-packet i8i8 {")).
-Eval vm_compute in ("<<<M286>>>" ++ check (runes_of_ascii " // `tick` ""quote"" 'q'")).
-Eval vm_compute in ("<<<M115>>>" ++ check (runes_of_ascii "MetaData roots{ } 	 ")).
-Eval vm_compute in ("<<<M986>>>" ++ check (runes_of_ascii "packet A {
-}
-// c" ++ [160]%N)).
-Eval vm_compute in ("<<<M1225>>>" ++ check (runes_of_ascii "
+Eval vm_compute in ("<<<M314>>>" ++ check (runes_of_ascii "root packet string_{
+char[] matchKey ,
+} packet x {
+    } 	 ")).
+Eval vm_compute in ("<<<M764>>>" ++ check (runes_of_ascii "float32 true uint8 f32 i64 i32 @leftPad ) char[ } uint8")).
+Eval vm_compute in ("<<<M1208>>>" ++ check (runes_of_ascii "packet body { i32 f32a
 // c
-packet x { }")).
-Eval vm_compute in ("<<<M1230>>>" ++ check (runes_of_ascii "packet x { // c
+`{ , }` , } options { }")).
+Eval vm_compute in ("<<<M1611>>>" ++ check (runes_of_ascii "packet stringy {
+}
+
+MetaData crc {
+    u16 o,
 }")).
-Eval vm_compute in ("<<<M241>>>" ++ check (runes_of_ascii "/// triple
+Eval vm_compute in ("<<<M31>>>" ++ check (runes_of_ascii "options {
+x=
+""{,}""
+matchKey=  true	; }
 ")).
-Eval vm_compute in ("<<<M293>>>" ++ check (runes_of_ascii "  
+Eval vm_compute in ("<<<M274>>>" ++ check (runes_of_ascii "packet Z9_
+{ }
+    packet Pad { } 	 ")).
+Eval vm_compute in ("<<<M1063>>>" ++ check (runes_of_ascii "packet A {
+ u8 x `d x`, // c x
+}")).
+Eval vm_compute in ("<<<M1033>>>" ++ check (runes_of_ascii "packet A {
+ u8 x `d" ++ [11]%N ++ runes_of_ascii "`, // c" ++ [11]%N ++ runes_of_ascii "
+}")).
+Eval vm_compute in ("<<<M338>>>" ++ check (runes_of_ascii "root packet
+msg_type { }
+")).
+Eval vm_compute in ("<<<M1760>>>" ++ check (runes_of_ascii "
+packet leftPad
+	{
+	}")).
+Eval vm_compute in ("<<<M162>>>" ++ check (runes_of_ascii "
+packet f32a  { }
+")).
+Eval vm_compute in ("<<<M1002>>>" ++ check (runes_of_ascii "// c" ++ [8192]%N ++ runes_of_ascii "
+packet A {
+}")).
+Eval vm_compute in ("<<<M277>>>" ++ check (runes_of_ascii "MetaData i64_ { }")).
+Eval vm_compute in ("<<<M1571>>>" ++ check (runes_of_ascii "MetaData tag {
+}")).
+Eval vm_compute in ("<<<M732>>>" ++ check (runes_of_ascii "// a
+// b
+")).
+Eval vm_compute in ("<<<M157>>>" ++ check (runes_of_ascii "//
 
 ")).
